@@ -140,9 +140,22 @@ func (x *Exec) staticCall(fr *Frame, st *State, ins ssa.Instruction, cc *ssa.Cal
 		return
 	}
 	if strings.HasPrefix(callee.Name(), "vs_") || (callee.Parent() != nil && strings.HasPrefix(callee.Parent().Name(), "vs_")) {
-		// ghost function: always inlined
+		// ghost function: always inlined. A recursive ghost predicate is its own uninterpreted
+		// symbol at the recursive occurrence; every outer call unfolds it once and records
+		// symbol(args) == unfolding (so facts about inner instances come from the calls made on them).
 		if x.onStack(callee) {
-			panic(engErr("recursive ghost function %s", callee.Name()))
+			x.pureCall(fr, st, "rec "+callee.String(), sig, args, res)
+			return
+		}
+		if clo == nil && x.isRecursiveGhost(callee) && callee.Signature.Results().Len() == 1 {
+			vals := x.inlineRun(fr, st, callee, clo, args, ins.Pos())
+			x.pureCall(fr, st, "rec "+callee.String(), sig, args, res)
+			if x.vc.noName == 0 {
+				x.vc.assert(eq(fr.regs[res], vals[0]))
+			} else {
+				fr.regs[res] = vals[0]
+			}
+			return
 		}
 		x.inlineCall(fr, st, ins, callee, clo, args, res)
 		return
@@ -392,6 +405,17 @@ func (x *Exec) contractCall(fr *Frame, st *State, ins ssa.Instruction, c *Contra
 			for _, t := range targets {
 				x.frameCheckLVal(fr, st, t, "modifies of "+c.Key, pos)
 				x.havocLVal(st, t)
+				st.dirtyOld = true
+				if hn := x.lvHeapName(t); hn != "" {
+					st.markDirty(hn)
+				} else if t.typ != nil {
+					if mt, ok := underlying(t.typ).(*types.Map); ok {
+						d, v, l := vc.mapHeaps(mt)
+						st.markDirty(d.name)
+						st.markDirty(v.name)
+						st.markDirty(l.name)
+					}
+				}
 			}
 		}
 		// allocation inside the callee
@@ -666,6 +690,7 @@ func (x *Exec) havocReachable(fr *Frame, st *State, sig *types.Signature, args [
 		nh := x.vc.fresh(h.name, h.sort)
 		st.heaps[h.name] = nh
 		st.written["h:"+h.name] = true
+		st.markDirty(h.name)
 	}
 	if len(heaps) > 0 {
 		x.note("havoc of %d heaps at unmodelled call %s", len(heaps), why)
@@ -709,8 +734,21 @@ func (x *Exec) pureCall(fr *Frame, st *State, full string, sig *types.Signature,
 		if i < len(ptypes) {
 			if pt, ok := underlying(ptypes[i]).(*types.Pointer); ok {
 				if _, isArr := isArrayType(pt.Elem()); !isArr {
-					h := vc.objHeap(pt.Elem())
-					v := sel(x.heap(st, h), a, vc.sortOf(pt.Elem()))
+					lv := x.ptrLVal(a, ptypes[i])
+					v := x.rootTerm(st, lv)
+					for _, pe := range lv.path {
+						if pe.isIdx {
+							var es Sort
+							if at, ok := isArrayType(pe.owner); ok {
+								es = vc.sortOf(at.Elem())
+							} else {
+								es = vc.sortOf(pe.owner)
+							}
+							v = sel(v, pe.idx, es)
+						} else {
+							v = vc.field(vc.structInfoOf(pe.owner), v, pe.field)
+						}
+					}
 					all = append(all, eqZero(a), v)
 					continue
 				}
@@ -718,23 +756,77 @@ func (x *Exec) pureCall(fr *Frame, st *State, full string, sig *types.Signature,
 		}
 		all = append(all, a)
 	}
-	for _, h := range x.reachableHeapsNoTop(sig) {
-		all = append(all, x.heap(st, h))
+	heaps := x.reachableHeapsNoTop(sig)
+	var cur, init []Term
+	changed := false
+	for _, h := range heaps {
+		c := x.heap(st, h)
+		i0 := x.heap(&State{heaps: map[string]Term{}}, h)
+		cur = append(cur, c)
+		init = append(init, i0)
+		if c.S != i0.S {
+			changed = true
+		}
 	}
-	var sorts []Sort
-	for _, a := range all {
-		sorts = append(sorts, a.Sort)
+	// While no object that existed at unit entry has been written, such objects cannot refer
+	// to objects allocated since; a pure function applied to old arguments then reads the
+	// entry heaps only (allocation-insensitivity).
+	var argsOld Term = tTrue
+	useInit := changed
+	for _, h := range heaps {
+		if st.dirty[h.name] {
+			useInit = false // an object of a type the function can reach was written
+		}
+	}
+	if useInit {
+		for i, a := range args {
+			if i < len(ptypes) {
+				switch underlying(ptypes[i]).(type) {
+				case *types.Pointer:
+					// the pointee travels by value: what matters is what that value refers to
+					if pt := underlying(ptypes[i]).(*types.Pointer); true {
+						if _, isArr := isArrayType(pt.Elem()); isArr {
+							argsOld = and(argsOld, x.oldRef(a))
+						} else {
+							argsOld = and(argsOld, or(eq(a, intLit(0)), x.refsOld(x.load(st, x.ptrLVal(a, ptypes[i])), pt.Elem(), 0)))
+						}
+					}
+				case *types.Map:
+					argsOld = and(argsOld, x.oldRef(a))
+				case *types.Slice:
+					argsOld = and(argsOld, le(sArr(a), x.top0))
+				case *types.Interface:
+					vc.declareFun("isref", []Sort{SInt}, SBool)
+					argsOld = and(argsOld, implies(app(SBool, "isref", iType(a)), le(iVal(a), x.top0)))
+				case *types.Struct:
+					argsOld = and(argsOld, x.refsOld(a, ptypes[i], 0))
+				}
+			}
+		}
+	}
+	mk := func(hs []Term) ([]Term, []Sort) {
+		a2 := append(append([]Term{}, all...), hs...)
+		var so []Sort
+		for _, a := range a2 {
+			so = append(so, a.Sort)
+		}
+		return a2, so
 	}
 	var results []Term
 	for i := 0; i < sig.Results().Len(); i++ {
 		rt := sig.Results().At(i).Type()
 		name := fmt.Sprintf("uf_%s_%d", mangle(strings.ReplaceAll(full, modPath+"/", "")), i)
+		ac, sorts := mk(cur)
 		vc.declareFun(name, sorts, vc.sortOf(rt))
 		var r Term
-		if len(all) == 0 {
+		if len(ac) == 0 {
 			r = Term{name, vc.sortOf(rt)}
 		} else {
-			r = app(vc.sortOf(rt), name, all...)
+			r = app(vc.sortOf(rt), name, ac...)
+			if useInit {
+				ai, _ := mk(init)
+				r = ite(argsOld, app(vc.sortOf(rt), name, ai...), r)
+			}
 		}
 		if vc.noName == 0 {
 			r = vc.name("uf", r)
@@ -879,4 +971,71 @@ func (e *Engine) boxedTypes() []types.Type {
 	}
 	e.boxed = res
 	return res
+}
+
+// isRecursiveGhost: the ghost function calls itself (directly).
+func (x *Exec) isRecursiveGhost(fn *ssa.Function) bool {
+	if v, ok := x.eng.recGhost[fn]; ok {
+		return v
+	}
+	rec := false
+	x.eng.ensureBuilt(fn)
+	for _, b := range fn.Blocks {
+		for _, ins := range b.Instrs {
+			if c, ok := ins.(ssa.CallInstruction); ok && c.Common().StaticCallee() == fn {
+				rec = true
+			}
+		}
+	}
+	if x.eng.recGhost == nil {
+		x.eng.recGhost = map[*ssa.Function]bool{}
+	}
+	x.eng.recGhost[fn] = rec
+	return rec
+}
+
+// oldRef: the reference denotes nil, an object that existed at unit entry, or (for virtual
+// references) a location inside such an object.
+func (x *Exec) oldRef(a Term) Term {
+	if lv, ok := x.virt[a.S]; ok {
+		if lv.cell != nil {
+			return tFalse
+		}
+		if lv.global != nil {
+			return tTrue
+		}
+		return le(lv.ptr, x.top0)
+	}
+	return le(a, x.top0)
+}
+
+// refsOld: every reference held directly (by value, through nested structs and arrays) in
+// the value v of type t denotes an object that existed at unit entry.
+func (x *Exec) refsOld(v Term, t types.Type, depth int) Term {
+	if depth > 4 {
+		return tFalse
+	}
+	switch u := underlying(t).(type) {
+	case *types.Pointer, *types.Map, *types.Chan, *types.Signature:
+		return le(v, x.top0)
+	case *types.Slice:
+		return le(sArr(v), x.top0)
+	case *types.Interface:
+		x.vc.declareFun("isref", []Sort{SInt}, SBool)
+		return implies(app(SBool, "isref", iType(v)), le(iVal(v), x.top0))
+	case *types.Struct:
+		si := x.vc.structInfoOf(t)
+		var cs []Term
+		for i := 0; i < u.NumFields(); i++ {
+			switch underlying(u.Field(i).Type()).(type) {
+			case *types.Basic:
+				continue
+			}
+			cs = append(cs, x.refsOld(x.vc.field(si, v, i), u.Field(i).Type(), depth+1))
+		}
+		return and(cs...)
+	case *types.Basic:
+		return tTrue
+	}
+	return tFalse
 }
